@@ -114,6 +114,175 @@ func extractC13(c *Ctx) {
 	c.Add("webBridgeWiring", "List (String × String × List String × List (String × String))", "["+strings.Join(rows, ",\n    ")+"]", src,
 		"NewWebBridge: (webbridge constructor, Opts type, fields declared by the Opts type, fields set by the Opts value with the expression, local aliases resolved)")
 	c.Add("webBridgeTranscoderInit", "String", LeanStr(trInit), src, "initialiser of the local `transcoder` in NewWebBridge")
+	extractC13Flush(c)
+	extractC13Handoff(c)
+}
+
+// extractC13Handoff reads the synchronisation skeleton the gwsStream LTS is built on (webbridge/websocket.go):
+//
+//	gwsSelectShape : List (String × List String)  -- per function: the comm clauses of its select statements, in source order
+//	gwsReaderDefers : List String                  -- the deferred calls of the goroutine that runs socket.ReadLoop(), in source order
+//	gwsEventsCloseGuard : List String              -- the condition of every `if` that directly contains `close(stream.events)`
+func extractC13Handoff(c *Ctx) {
+	sq := func(n ast.Node) string { return strings.Join(strings.Fields(c.Src(n)), "") }
+	const file = "webbridge/websocket.go"
+	rows := []string{}
+	for _, m := range [][2]string{{"gwsHandler", "OnMessage"}, {"gwsStream", "Recv"}} {
+		comms := []string{}
+		if fd := c.FuncDecl(file, m[0], m[1]); fd != nil && fd.Body != nil {
+			ast.Inspect(fd.Body, func(n ast.Node) bool {
+				if cc, ok := n.(*ast.CommClause); ok {
+					if cc.Comm == nil {
+						comms = append(comms, "default")
+					} else {
+						comms = append(comms, sq(cc.Comm))
+					}
+				}
+				return true
+			})
+		}
+		rows = append(rows, fmt.Sprintf("(%s, %s)", LeanStr(m[0]+"."+m[1]), LeanStrList(comms)))
+	}
+	c.Add("gwsSelectShape", "List (String × List String)", "["+strings.Join(rows, ", ")+"]", file,
+		"comm clauses of the select statements in gwsHandler.OnMessage and gwsStream.Recv")
+
+	defers, guards := []string{}, []string{}
+	if fd := c.FuncDecl(file, "TranscodedWebSocketBridge", "ServeHTTP"); fd != nil && fd.Body != nil {
+		ast.Inspect(fd.Body, func(n ast.Node) bool {
+			gs, ok := n.(*ast.GoStmt)
+			if !ok {
+				return true
+			}
+			fl, ok := gs.Call.Fun.(*ast.FuncLit)
+			if !ok || !strings.Contains(c.Src(fl), "ReadLoop") {
+				return true
+			}
+			for _, st := range fl.Body.List {
+				if d, ok := st.(*ast.DeferStmt); ok {
+					defers = append(defers, sq(d.Call))
+				}
+			}
+			return true
+		})
+	}
+	if fd := c.FuncDecl(file, "gwsHandler", "OnMessage"); fd != nil && fd.Body != nil {
+		ast.Inspect(fd.Body, func(n ast.Node) bool {
+			ifs, ok := n.(*ast.IfStmt)
+			if !ok {
+				return true
+			}
+			for _, st := range ifs.Body.List {
+				if sq(st) == "close(stream.events)" {
+					guards = append(guards, sq(ifs.Cond))
+				}
+			}
+			return true
+		})
+	}
+	c.Add("gwsReaderDefers", "List String", LeanStrList(defers), file, "deferred calls of the goroutine running socket.ReadLoop() in TranscodedWebSocketBridge.ServeHTTP")
+	c.Add("gwsEventsCloseGuard", "List String", LeanStrList(guards), file, "conditions guarding close(stream.events) in gwsHandler.OnMessage")
+}
+
+// extractC13Flush reads the write/flush shape of the streamed HTTP response path:
+//
+//	httpStreamSendShape : List String   -- the statements of the `if s.respstream != nil { … }` block of httpStream.send, tagged:
+//	   "transcode" (a statement calling s.respstream.Transcode), "flush" (the statement `s.flusher.Flush()`), "return", "other:<src>"
+//	streamEncoderWrites : List (String × List String)  -- per stream encoder method: the argument of every `.Write(…)` call in it
+//	jsonDelimiterLit : String           -- the literal the constant jsonDelimiter is declared with
+func extractC13Flush(c *Ctx) {
+	sq := func(n ast.Node) string { return strings.Join(strings.Fields(c.Src(n)), "") }
+	calls := func(n ast.Node, want string) bool {
+		found := false
+		ast.Inspect(n, func(m ast.Node) bool {
+			if ce, ok := m.(*ast.CallExpr); ok && sq(ce.Fun) == want {
+				found = true
+			}
+			return true
+		})
+		return found
+	}
+	shape, src := []string{}, ""
+	if fd := c.FuncDecl("webbridge/http.go", "httpStream", "send"); fd != nil && fd.Body != nil {
+		src = c.Pos(fd)
+		for _, st := range fd.Body.List {
+			ifs, ok := st.(*ast.IfStmt)
+			if !ok || sq(ifs.Cond) != "s.respstream!=nil" {
+				continue
+			}
+			for _, b := range ifs.Body.List {
+				switch {
+				case calls(b, "s.respstream.Transcode"):
+					shape = append(shape, "transcode")
+				case sq(b) == "s.flusher.Flush()":
+					shape = append(shape, "flush")
+				default:
+					if _, ok := b.(*ast.ReturnStmt); ok {
+						shape = append(shape, "return")
+					} else {
+						shape = append(shape, "other:"+sq(b))
+					}
+				}
+			}
+		}
+	}
+	c.Add("httpStreamSendShape", "List String", LeanStrList(shape), src,
+		"httpStream.send, block `if s.respstream != nil`: statements tagged transcode / flush / return / other")
+
+	rows := []string{}
+	for _, m := range [][3]string{{"transcoding/json.go", "jsonEncoder", "Encode"}, {"transcoding/http.go", "sseResponseStream", "Transcode"}} {
+		args := []string{}
+		if fd := c.FuncDecl(m[0], m[1], m[2]); fd != nil && fd.Body != nil {
+			ast.Inspect(fd.Body, func(n ast.Node) bool {
+				if ce, ok := n.(*ast.CallExpr); ok {
+					if sel, ok := ce.Fun.(*ast.SelectorExpr); ok && sel.Sel.Name == "Write" && len(ce.Args) == 1 {
+						args = append(args, sq(ce.Args[0]))
+					}
+				}
+				return true
+			})
+		}
+		rows = append(rows, fmt.Sprintf("(%s, %s)", LeanStr(m[1]+"."+m[2]), LeanStrList(args)))
+	}
+	c.Add("streamEncoderWrites", "List (String × List String)", "["+strings.Join(rows, ", ")+"]", "transcoding/json.go, transcoding/http.go",
+		"per stream encoder: the argument of every Write call (one Write = one framed record)")
+
+	delim := "<not found>"
+	if f := c.File("transcoding/json.go"); f != nil {
+		ast.Inspect(f, func(n ast.Node) bool {
+			if vs, ok := n.(*ast.ValueSpec); ok {
+				for i, nm := range vs.Names {
+					if nm.Name == "jsonDelimiter" && i < len(vs.Values) {
+						delim = sq(vs.Values[i])
+					}
+				}
+			}
+			return true
+		})
+	}
+	c.Add("jsonDelimiterLit", "String", LeanStr(delim), "transcoding/json.go", "declaration of jsonDelimiter")
+
+	// where SSE framing is NOT applied: the per-message standardResponseTranscoder.Transcode (the unary HTTP body and every
+	// WebSocket message are built from it) must not look at isSSE nor produce "data:" — anything framing-related it mentions
+	mentions := []string{}
+	if fd := c.FuncDecl("transcoding/http.go", "standardResponseTranscoder", "Transcode"); fd != nil && fd.Body != nil {
+		ast.Inspect(fd.Body, func(n ast.Node) bool {
+			switch x := n.(type) {
+			case *ast.SelectorExpr:
+				if x.Sel.Name == "isSSE" {
+					mentions = append(mentions, "isSSE")
+				}
+			case *ast.BasicLit:
+				if x.Kind == token.STRING && (strings.Contains(x.Value, "data:") || strings.Contains(x.Value, `\n`)) {
+					mentions = append(mentions, "lit:"+x.Value)
+				}
+			}
+			return true
+		})
+	} else {
+		mentions = append(mentions, "<not found>")
+	}
+	c.Add("responseTranscodeFramingMentions", "List String", LeanStrList(mentions), "transcoding/http.go",
+		"standardResponseTranscoder.Transcode: uses of isSSE and framing literals inside the per-message Transcode (must be none)")
 }
 
 // optsFields lists the field names of struct type `name` declared in package webbridge.
